@@ -21,6 +21,12 @@ from concurrent.futures import FIRST_COMPLETED, ProcessPoolExecutor, wait
 
 from sim import core, minimise
 
+def _now():
+    """Real monotonic clock (the time module may carry the simulator's seam)."""
+    real = getattr(core.VirtualClock, "real", None)
+    return real["monotonic"]() if real else time.monotonic()
+
+
 NPROC = int(os.environ.get("VERIF_NPROC", "16"))
 MAX_REPORTED = 10
 DETERMINISM_UNITS = 12
@@ -250,7 +256,7 @@ def run_regressions(mod):
 
 def run_check(mod, tier, base_seed, budget_s=None, quiet=False):
     """Returns exit code (0 / 1 / 2)."""
-    t0 = time.monotonic()
+    t0 = _now()
     modname = mod.__name__
     total = UnitResult()
     reg, n_reg = run_regressions(mod)
@@ -279,7 +285,7 @@ def run_check(mod, tier, base_seed, budget_s=None, quiet=False):
         try:
             while True:
                 while not exhausted and len(pending) < NPROC * 2:
-                    if budget is not None and time.monotonic() - t0 > budget:
+                    if budget is not None and _now() - t0 > budget:
                         exhausted = True
                         break
                     if len(total.violations) >= MAX_REPORTED:
@@ -333,7 +339,7 @@ def run_check(mod, tier, base_seed, budget_s=None, quiet=False):
         for scn in o_viol:
             if signature(mod, scn) not in known_sigs:
                 total.violations.append(scn)
-    wall = time.monotonic() - t0
+    wall = _now() - t0
 
     # ---- report violations: dedupe, write replay, confirm in a fresh interpreter
     reported = {}
